@@ -9,6 +9,9 @@ size_t gh_slen;          /* length of the name */
 size_t gh_j;             /* ghost index into the name */
 size_t gh_newlen, gh_newcap;
 const char *gh_name;
+/* as in the shipped build, assertions are off in yaep.c (it defines NDEBUG before it re-includes <assert.h> through the container headers;
+   here those headers are already included, so the same state is set explicitly) */
+#define NDEBUG 1
 #include "yaep.c"
 #include "alloc_model.h"
 #ifndef CAP
@@ -28,18 +31,20 @@ __CPROVER_ensures (__CPROVER_is_fresh (__CPROVER_return_value, sizeof (hash_tabl
 __CPROVER_ensures (*__CPROVER_return_value == NULL)            /* documented precondition of symb_add_*: the symbol is not in the tables */
 ;
 /* what OS.string proves about _OS_add_string_function, restated for an EMPTY top object (the state after OS_TOP_FINISH) */
-int gh_inplace;       /* the string fits into the current segment */
+int gh_inplace;       /* (harness ghost, kept for the canaries) */
+/* the string fits behind the (empty) top object of the current segment */
+#define FITS(os) (OFF ((os)->os_top_object_start) + gh_slen + 1 <= OFF ((os)->os_boundary))
+#define FITS_OLD(os) (OFF (__CPROVER_old ((os)->os_top_object_start)) + gh_slen + 1 <= OFF (__CPROVER_old ((os)->os_boundary)))
 void os_add_string_use_c (os_t *os, const char *str)
 __CPROVER_requires (str == gh_name && TOPLEN (os) == 0)
-__CPROVER_requires (gh_inplace == (OFF (os->os_top_object_start) + gh_slen + 1 <= OFF (os->os_boundary)))
 /* (segment, start and boundary are assignable only when a new segment is made: a pointer that is havoced and then tied by an equality has no points-to set) */
-__CPROVER_assigns (os->os_top_object_free, gh_newlen, __CPROVER_object_whole (os->os_top_object_free))
-__CPROVER_assigns (!gh_inplace: os->os_current_segment, os->os_top_object_start, os->os_boundary)
+__CPROVER_assigns (os->os_top_object_free, gh_newlen, __CPROVER_object_from (os->os_top_object_free))      /* only the bytes behind the finished objects of the segment */
+__CPROVER_assigns (!FITS (os): os->os_current_segment, os->os_top_object_start, os->os_boundary)
 __CPROVER_ensures (gh_newlen >= gh_slen + 1 && gh_newlen <= 2 * CAP + OS_DEFAULT_SEGMENT_LENGTH)
 /* in place when it fits (segment, start and boundary unchanged: frame), otherwise in a fresh segment */
-__CPROVER_ensures (gh_inplace || __CPROVER_is_fresh (os->os_current_segment, gh_newlen + HDR))
-__CPROVER_ensures (gh_inplace || (__CPROVER_pointer_in_range_dfcc (SEGB (os) + PAY, os->os_top_object_start, SEGB (os) + PAY)
-                                 && __CPROVER_pointer_in_range_dfcc (SEGB (os) + PAY + gh_newlen, os->os_boundary, SEGB (os) + PAY + gh_newlen)))
+__CPROVER_ensures (FITS_OLD (os) || __CPROVER_is_fresh (os->os_current_segment, gh_newlen + HDR))
+__CPROVER_ensures (FITS_OLD (os) || (__CPROVER_pointer_in_range_dfcc (SEGB (os) + PAY, os->os_top_object_start, SEGB (os) + PAY)
+                                  && __CPROVER_pointer_in_range_dfcc (SEGB (os) + PAY + gh_newlen, os->os_boundary, SEGB (os) + PAY + gh_newlen)))
 __CPROVER_ensures (__CPROVER_pointer_in_range_dfcc (os->os_top_object_start + gh_slen + 1, os->os_top_object_free, os->os_top_object_start + gh_slen + 1))
 __CPROVER_ensures (os->os_top_object_start[gh_j] == gh_name[gh_j])
 ;
@@ -65,7 +70,6 @@ __CPROVER_ensures (__CPROVER_pointer_in_range_dfcc (vlo->vlo_start + gh_newcap, 
 struct symb *add_term_c (const char *name, int code)
 __CPROVER_requires (symbs_ptr != NULL && name == gh_name && gh_slen < CAP && gh_j <= gh_slen)          /* the harness supplies *symbs_ptr, its containers and the name */
 __CPROVER_requires (symbs_ptr->n_terms >= 0 && symbs_ptr->n_nonterms >= 0 && symbs_ptr->n_terms < 100000 && symbs_ptr->n_nonterms < 100000)
-__CPROVER_requires (gh_inplace == (OFF (symbs_ptr->symbs_os.os_top_object_start) + gh_slen + 1 <= OFF (symbs_ptr->symbs_os.os_boundary)))
 __CPROVER_assigns (symbs_ptr->n_terms, symbs_ptr->symbs_os, symbs_ptr->symbs_vlo, symbs_ptr->terms_vlo, gh_newlen, gh_newcap,
                    __CPROVER_object_whole (symbs_ptr->symbs_os.os_top_object_free), __CPROVER_object_whole (symbs_ptr->symbs_vlo.vlo_free), __CPROVER_object_whole (symbs_ptr->terms_vlo.vlo_free))
 __CPROVER_ensures (__CPROVER_return_value->term_p && __CPROVER_return_value->u.term.code == code
@@ -96,3 +100,31 @@ static void world (void)
   mk_os (&symbs_ptr->symbs_os); mk_vlo (&symbs_ptr->symbs_vlo); mk_vlo (&symbs_ptr->terms_vlo); mk_vlo (&symbs_ptr->nonterms_vlo);
 }
 void h_add_term (void) { int code; world (); symb_add_term (gh_name, code); VACUITY_CANARY (); }
+
+/* ---- T.copy.rule: rule_new_start stores a COPY of the abstract node name in the grammar's rule storage ---- */
+struct rule *rule_start_c (struct symb *lhs, const char *anode, int anode_cost)
+__CPROVER_requires (rules_ptr != NULL && __CPROVER_is_fresh (lhs, sizeof (*lhs)) && (anode == NULL || anode == gh_name) && gh_slen < CAP && gh_j <= gh_slen)
+__CPROVER_requires (rules_ptr->n_rules >= 0 && rules_ptr->n_rules < 100000 && rules_ptr->n_rhs_lens >= 0 && rules_ptr->n_rhs_lens < 100000)
+__CPROVER_assigns (rules_ptr->n_rules, rules_ptr->curr_rule, rules_ptr->first_rule, rules_ptr->rules_os, lhs->u.nonterm.rules, gh_newlen,
+                   __CPROVER_object_whole (rules_ptr->rules_os.os_top_object_free))
+__CPROVER_assigns (rules_ptr->curr_rule != NULL: rules_ptr->curr_rule->next)
+__CPROVER_ensures (__CPROVER_return_value->lhs == lhs && __CPROVER_return_value->rhs_len == 0 && __CPROVER_return_value->trans_len == 0 && __CPROVER_return_value->order == NULL
+                   && __CPROVER_return_value->next == NULL && __CPROVER_return_value->num == __CPROVER_old (rules_ptr->n_rules) && rules_ptr->n_rules == __CPROVER_old (rules_ptr->n_rules) + 1)
+__CPROVER_ensures (__CPROVER_return_value->lhs_next == __CPROVER_old (lhs->u.nonterm.rules) && lhs->u.nonterm.rules == __CPROVER_return_value && rules_ptr->curr_rule == __CPROVER_return_value)
+/* no abstract node: none stored, cost 0; otherwise the cost and a COPY of the name (C13: the caller may free or overwrite its string) */
+__CPROVER_ensures (anode == NULL ? (__CPROVER_return_value->anode == NULL && __CPROVER_return_value->anode_cost == 0)
+                                 : (__CPROVER_return_value->anode != anode && !__CPROVER_same_object (__CPROVER_return_value->anode, anode) && __CPROVER_return_value->anode_cost == anode_cost))
+__CPROVER_ensures (anode == NULL || __CPROVER_return_value->anode[gh_j] == anode[gh_j])
+/* the right-hand side is an (open) array holding the NULL end marker */
+__CPROVER_ensures (__CPROVER_return_value->rhs[0] == NULL)
+;
+static void world_rule (void)
+{
+  char *nm; HAVOC (gh_slen); HAVOC (gh_j); HAVOC (gh_newlen); HAVOC (gh_newcap); HAVOC (gh_inplace);
+  __CPROVER_assume (gh_slen < CAP);
+  nm = malloc (gh_slen + 1); __CPROVER_assume (nm != NULL); nm[gh_slen] = '\0'; gh_name = nm;
+  rules_ptr = malloc (sizeof (struct rules)); __CPROVER_assume (rules_ptr != NULL);
+  mk_os (&rules_ptr->rules_os);
+  { _Bool has; if (has) { rules_ptr->curr_rule = malloc (sizeof (struct rule)); __CPROVER_assume (rules_ptr->curr_rule != NULL); } else rules_ptr->curr_rule = NULL; }
+}
+void h_rule_start (void) { struct symb *lhs; const char *an; int c; world_rule (); rule_new_start (lhs, an, c); if (an) VACUITY_CANARY_N ("with abstract node"); else VACUITY_CANARY_N ("without"); }
